@@ -647,6 +647,38 @@ class Fn:
                 out.append((b, keep, lose))
         return out
 
+    def enclosing_loop_heads(self, b):
+        """blocks of Iterator::next calls that dominate b and are reachable again from b (loop heads around b)"""
+        heads = []
+        for c in self.calls:
+            if c.name == "next" and c.bb in self.dom[b] and c.bb != b:
+                # reachable from b?
+                seen = {b}
+                dq = deque([b])
+                hit = False
+                while dq and not hit:
+                    x = dq.popleft()
+                    for y in self.succ[x]:
+                        if y == c.bb:
+                            hit = True
+                            break
+                        if y not in seen:
+                            seen.add(y)
+                            dq.append(y)
+                if hit:
+                    heads.append(c.bb)
+        return heads
+
+    def filters_in_iteration(self, effect):
+        """filter_branches restricted to one iteration of the innermost loop around `effect` (or the whole body if none)"""
+        heads = self.enclosing_loop_heads(effect)
+        if not heads:
+            return self.filter_branches(0, effect)
+        # innermost = the head dominated by all other heads
+        inner = max(heads, key=lambda h: len(self.dom[h]))
+        start = self.blocks[inner]["term"].get("target")
+        return self.filter_branches(start if start is not None else inner, effect, stops=heads)
+
     def edge_region(self, a, label):
         """blocks that can only run after branch edge (a, label) was taken"""
         seen = {0}
